@@ -233,7 +233,9 @@ StepEv(s, t, e) ==
                \* (counted from the moment it was last reported found, if that is later)
                \* (the first removal of an instance that is reported found; counted from the moment it was found, if that is later)
                \cup V("C05.late", e.fnk \notin c.found \/ T <= GoneAt(t, c.key, e.fnk, e.fnk \in c.resolved) + 1500 \/ (e.fnk \in Dom(c.foundAt) /\ T <= c.foundAt[e.fnk] + 1500),
-                      <<"ServiceRemoved later than one second after the instance was gone", e.fnk, GoneAt(t, c.key, e.fnk, e.fnk \in c.resolved), T>>))
+                      <<IF \E y \in Dom(s.chan) : y # e.ch /\ s.chan[y].kind = "browse" /\ s.chan[y].key # c.key /\ e.fnk \in s.chan[y].ever
+                        THEN "instance browsed under its type and under a subtype: when its SRV or last address is gone the removal is reported on one of the two channels only (the other hears of it when the next record runs out)"
+                        ELSE "ServiceRemoved later than one second after the instance was gone", e.fnk, GoneAt(t, c.key, e.fnk, e.fnk \in c.resolved), T>>))
       [] e.k = "SearchStopped" ->
            [s EXCEPT !.chan = Put(s.chan, e.ch, [c EXCEPT !.st = "stopped"]),
                      !.owedStop = s.owedStop \ {e.ch},
@@ -250,7 +252,7 @@ StepEv(s, t, e) ==
                \cup V("C17.found", /\ Len(e.addrs) > 0
                                    /\ \A x \in AddrsOf(e) : \A i \in Range(x.ifs) :
                                          \E id \in Dom(t) : /\ IsAddrTy(id[1]) /\ id[2] = c.key /\ t[id].ip = x.ip /\ t[id].ifx = i
-                                                            /\ T < t[id].exp,
+                                                            /\ T <= t[id].exp,     \* "until T + t and never after": at the instant itself it may still be shown
                       <<"address not received (or expired) for that host", e.addrs>>))
       [] e.k = "AddressesRemoved" ->
            upd([c EXCEPT !.found = c.found \ UNION {{<<x.ip, i>> : i \in Range(x.ifs)} : x \in AddrsOf(e)}],
@@ -310,6 +312,10 @@ ParkInvariants(ch, t) ==
                                                                   /\ \E a \in Dom(t) : IsAddrTy(a[1]) /\ a[2] = t[s].tk /\ T < t[a].exp} :
                         \E y \in Dom(ch) : y # x /\ ch[y].kind = "browse" /\ ch[y].bound /\ ch[y].key # c.key /\ f \in ch[y].ever
                   THEN "instance browsed under its type and under a subtype: when its SRV or last address is gone the removal is reported on one of the two channels only"
+                  ELSE IF \A f \in {g \in c.resolved : ~\E s \in Dom(t) : /\ s[1] = "SRV" /\ s[2] = g /\ T < t[s].exp
+                                                                  /\ \E a \in Dom(t) : IsAddrTy(a[1]) /\ a[2] = t[s].tk /\ T < t[a].exp} :
+                        \E y \in Dom(ch) : y # x /\ ch[y].kind = "browse" /\ ~ch[y].bound /\ ch[y].key # c.key /\ f \in ch[y].ever /\ ch[y].stoppedAt >= c.at
+                  THEN "instance browsed under its type and under a subtype, one of the two searches stopped: stop_browse takes the instance's records along, the other channel is told nothing"
                   ELSE "SRV or last address gone but no ServiceRemoved",
                   {f \in c.resolved : ~\E s \in Dom(t) : /\ s[1] = "SRV" /\ s[2] = f /\ T < t[s].exp
                                                          /\ \E a \in Dom(t) : IsAddrTy(a[1]) /\ a[2] = t[s].tk /\ T < t[a].exp}>>)
@@ -348,7 +354,8 @@ Mult(X) == LET paths == {<<Sent[i]["if"], Sent[i].v4>> : i \in Qpk}
 
 MarkPcts == {80, 85, 90, 95}
 MarkTime(e, m) == e.at + (LifeMs(e.ttl) \div 100) * m
-DueMarks(e, at) == {m \in MarkPcts \ e.marks : MarkTime(e, m) <= at}
+DueMarks(e, at) == {m \in MarkPcts \ e.umarks : MarkTime(e, m) <= at}      \* not yet used as an explanation
+OwedMarks(e, at) == {m \in MarkPcts \ e.marks : MarkTime(e, m) <= at}      \* not yet asked for
 MinOf(S) == CHOOSE x \in S : \A y \in S : x <= y
 RECURSIVE SumDue(_, _)
 SumDue(t, S) == IF S = {} THEN 0 ELSE LET x == CHOOSE y \in S : TRUE IN Cardinality(DueMarks(t[x], T)) + SumDue(t, S \ {x})
@@ -383,15 +390,23 @@ Explain(s, ch, X) ==
       nRef == SumDue(s.tab, refIds)
       n == (IF schedDue THEN 1 ELSE 0) + nRef + (IF fuOk THEN 1 ELSE 0) + (IF verOk THEN 1 ELSE 0)
            + (IF caseCopies THEN 4 ELSE 0)
-      \* each time the question was asked uses up the earliest mark of every record that was due
-      tab2 == [id \in Dom(s.tab) |-> IF id \in refIds THEN [s.tab[id] EXCEPT !.marks = @ \cup FirstK(DueMarks(s.tab[id], T), Mult(X))] ELSE s.tab[id]]
+      \* each time the question was asked - beyond what schedule, follow-up and verify request account for: those are sent on
+      \* their own and leave the marks alone - uses up the earliest mark of every record that was due
+      other == (IF schedDue THEN 1 ELSE 0) + (IF fuOk THEN 1 ELSE 0) + (IF verOk THEN 1 ELSE 0)
+      \* (what is owed is settled by any question for the record, whatever else may explain it)
+      tab2 == [id \in Dom(s.tab) |->
+                 IF id \in MatchIds(s.tab, X)
+                 THEN [s.tab[id] EXCEPT !.umarks = IF id \in refIds /\ Mult(X) > other THEN @ \cup FirstK(DueMarks(s.tab[id], T), Mult(X) - other) ELSE @,
+                                        !.marks = IF OwedMarks(s.tab[id], T) # {} THEN @ \cup FirstK(OwedMarks(s.tab[id], T), Mult(X)) ELSE @]
+                 ELSE s.tab[id]]
       \* n / last: the follow-ups that cannot be anything else (at least that many were sent); m / lastAny: every question that
       \* may have been one - it coincided with a refresh mark, a schedule slot or a verify request - (at most that many)
       sure == fuOk /\ ~schedDue /\ refIds = {} /\ ~verOk
-      old == IF fuKey \in Dom(s.fu) THEN s.fu[fuKey] ELSE [n |-> 0, last |-> 0, m |-> 0, lastAny |-> 0]
+      old == IF fuKey \in Dom(s.fu) THEN s.fu[fuKey] ELSE [n |-> 0, last |-> 0, m |-> 0, lastAny |-> 0, tot |-> 0, lastTot |-> 0]
       fu2 == IF fuInst \/ fuHost
              THEN Put(s.fu, fuKey, [n |-> IF sure /\ old.last # T THEN old.n + 1 ELSE old.n, last |-> IF sure THEN T ELSE old.last,
-                                    m |-> IF old.lastAny # T THEN old.m + 1 ELSE old.m, lastAny |-> T])
+                                    m |-> IF old.lastAny # T THEN old.m + 1 ELSE old.m, lastAny |-> T,
+                                    tot |-> IF old.lastTot # T THEN old.tot + 1 ELSE old.tot, lastTot |-> T])
              ELSE s.fu
   IN [s EXCEPT !.tab = tab2, !.fu = fu2,
                !.used = s.used \cup (IF schedDue THEN {k} ELSE {}),
@@ -405,8 +420,9 @@ Explain(s, ch, X) ==
 FuAfterNews(fu0, tOld, tNew) ==
   LET news(f) == \E id \in Dom(tNew) : /\ ((id[1] \in {"SRV", "TXT"} /\ id[2] = f) \/ (id[1] = "PTR" /\ tNew[id].tk = f))
                                         /\ tNew[id].at > lastT /\ tNew[id].ttl # 0
-                                        /\ (id \notin Dom(tOld) \/ tOld[id].ttl <= 1 \/ tOld[id].exp <= tNew[id].at)
-  IN [k \in {x \in Dom(fu0) : ~news(x)} |-> fu0[k]]
+                                        /\ (id \notin Dom(tOld) \/ (tOld[id].ttl <= 1 /\ tNew[id].ttl > 1) \/ tOld[id].exp <= tNew[id].at)
+  \* (tot, the number of possible follow-ups since the instance became unresolved, is kept: what is owed is judged by it)
+  IN [k \in Dom(fu0) |-> IF news(k) THEN [fu0[k] EXCEPT !.n = 0, !.m = 0, !.last = 0, !.lastAny = 0] ELSE fu0[k]]
 
 RECURSIVE FoldQ(_, _, _)
 FoldQ(s, ch, Xs) == IF Xs = {} THEN s ELSE LET X == CHOOSE x \in Xs : TRUE IN FoldQ(Explain(s, ch, X), ch, Xs \ {X})
@@ -472,7 +488,7 @@ DueTimes(t, ch, sc, fu2, ver) ==
   \cup {ch[x].deadline : x \in {y \in Dom(ch) : ch[y].kind = "host" /\ ch[y].bound /\ ch[y].st = "started" /\ ch[y].deadline >= 0}}
   \cup {v.at + 1000 : v \in {w \in ver : w.hosts # {}}}
   \* a follow-up series that is certainly under way (one question can be nothing else) and certainly not over
-  \cup {fu2[k].lastAny + 500 : k \in {x \in Dom(fu2) : fu2[x].n >= 1 /\ fu2[x].m < 3}}
+  \cup {fu2[k].lastAny + 500 : k \in {x \in Dom(fu2) : fu2[x].n >= 1 /\ fu2[x].m < 3 /\ fu2[x].tot < 3}}
 WakeCover(t, ch, sc, fu2, ver) ==
   LET due == {d \in DueTimes(t, ch, sc, fu2, ver) : d > T} IN
   IF due = {} THEN {}
@@ -593,15 +609,18 @@ LackKind(t, f) == IF SrvOf(t, f) = {} THEN "inst"
 AskedNow(t, f, k) == IF k = "inst" THEN \E X \in AllQ : X[1] = f /\ X[2] \in {"ANY", "SRV", "TXT"}
                      ELSE IF k = "host" THEN \E X \in AllQ : X[2] \in {"ADDR", "ANY"} /\ X[1] \in {t[id].tk : id \in SrvOf(t, f)}
                      ELSE TRUE
-LackStep(lk, t, ch) ==
+LackStep(lk, t, ch, fu2) ==
   [f \in {g \in AskInsts(ch) : \E id \in Dom(t) : id[1] = "PTR" /\ t[id].tk = g /\ LiveFu(t, id)} |->
      LET k == LackKind(t, f)  a == AskedNow(t, f, k)
          \* an obligation begins when the instance is found, and when its SRV arrives and the addresses are the next thing to ask for;
          \* records that were there and ran out are the business of the refresh schedule (C11 / C12), not of the follow-up
-         fresh == f \notin Dom(lk) \/ (lk[f].kind = "inst" /\ k = "host") IN
-     IF f \in Dom(lk) /\ lk[f].kind = k THEN [lk[f] EXCEPT !.asked = @ \/ a] ELSE [kind |-> k, since |-> T, asked |-> a \/ ~fresh]]
+         fresh == f \notin Dom(lk) \/ (lk[f].kind = "inst" /\ k = "host")
+         \* three follow-ups were sent for the instance while it was unresolved (possibly before this channel found it: the
+         \* daemon keeps one series per instance): nothing more is owed, whatever arrives later
+         spent == f \in Dom(fu2) /\ fu2[f].tot >= 3 IN
+     IF f \in Dom(lk) /\ lk[f].kind = k THEN [lk[f] EXCEPT !.asked = @ \/ a \/ spent] ELSE [kind |-> k, since |-> T, asked |-> a \/ ~fresh \/ spent]]
 AskOwed(lk, fu2) ==
-  UNION {V("C04.ask", lk[f].asked \/ lk[f].kind = "none" \/ T < lk[f].since + 1000 \/ (f \in Dom(fu2) /\ fu2[f].m >= 3),
+  UNION {V("C04.ask", lk[f].asked \/ lk[f].kind = "none" \/ T < lk[f].since + 1000 \/ (f \in Dom(fu2) /\ fu2[f].tot >= 3),
            <<IF lk[f].kind = "inst" THEN "found instance without SRV: its SRV / TXT were not asked for within a second"
              ELSE "found instance whose SRV is known but no address: the host's addresses were not asked for within a second", f, lk[f].since, T>>)
          : f \in Dom(lk)}
@@ -628,14 +647,14 @@ Iter ==
        /\ owedStop' = s2.owedStop
        /\ sched' = AdvanceSched(s1.sched, s3.used)
        /\ fu' = [k \in Dom(s3.fu) \cap UnresolvedT(s2.chan, s3.tab) |-> s3.fu[k]]
-       /\ lack' = LackStep(lack, s3.tab, s2.chan)
+       /\ lack' = LackStep(lack, s3.tab, s2.chan, s3.fu)
        /\ verifs' = {v \in s1.verifs : T < v.at + 1001}
        /\ lastT' = T
        /\ arrs' = SelectSeq(arrs \o NewArrivals(inbox), LAMBDA x : x > T)
        /\ viol' = Cap(viol, SpinV \cup s2.v \cup s3.v
                     \cup (IF Ev.alive /\ ~s1.down THEN ParkInvariants(s2.chan, s1.tab) \cup SchedOwed(s1.sched, s3.used)
                                                        \cup MarksOwed(s1.tab, s3.tab, s2.chan)
-                                                       \cup AskOwed(LackStep(lack, s3.tab, s2.chan), s3.fu)
+                                                       \cup AskOwed(LackStep(lack, s3.tab, s2.chan, s3.fu), s3.fu)
                                                        \cup HostMarksOwed(s1.tab, s3.tab, s2.chan)
                                                        \cup WakeCover(s3.tab, s2.chan, AdvanceSched(s1.sched, s3.used), s3.fu, {v \in s1.verifs : T < v.at + 1000})
                           ELSE {})
